@@ -202,7 +202,9 @@ func runC03(c *Check) {
 				if si.kind == "header" {
 					okMsg = strings.Contains(msg, is+".Header") || p.DeepContains(v.Args[1], func(t *Term) bool { return t.Op == "field" && t.String() == is+".Header" }, 2)
 				} else {
-					okMsg = strings.Contains(msg, "MarshalBinary("+is+".Data)") || p.DeepContains(v.Args[1], func(t *Term) bool { return strings.HasSuffix(t.Name, "MarshalBinary") && len(t.Args) > 0 && t.Args[0].String() == is+".Data" }, 2)
+					okMsg = strings.Contains(msg, "MarshalBinary("+is+".Data)") || p.DeepContains(v.Args[1], func(t *Term) bool {
+						return strings.HasSuffix(t.Name, "MarshalBinary") && len(t.Args) > 0 && t.Args[0].String() == is+".Data"
+					}, 2)
 				}
 				if okKey && okSig && okMsg {
 					verified = true
